@@ -9,7 +9,7 @@
     Undefined / throwing C++ operations do not stop the model: they set the
     sticky field [cx_err] (first error wins) and the computation continues with
     a harmless value; [Api.step] reports [ObsCrash] from then on. *)
-From Coq Require Import List Arith NArith Bool.
+From Coq Require Import List Arith NArith ZArith Bool.
 From Coq.Strings Require Import Byte.
 From RimeV Require Import Base.Bytes Eng.Keys Eng.Cand Eng.Menu Eng.Segm.
 Import ListNotations.
@@ -18,25 +18,37 @@ Inductive err :=
 | ErrSubstr      (* std::string::substr with pos > size (throws std::out_of_range) *)
 | ErrNullDeref   (* member access through a null an<Candidate> *)
 | ErrBadRange    (* std::copy(first, last) with first > last *)
-| ErrFuel.       (* a loop of the model ran out of fuel (never a C++ behaviour) *)
+| ErrFuel        (* a loop of the model ran out of fuel (never a C++ behaviour) *)
+| ErrDangling.   (* CommitHistory::Push(composition, input) dereferences [last] after the record it
+                    points to was evicted by kMaxRecords (heap use after free) *)
+
+(** CommitHistory (commit_history.h/.cc), abstracted to what the modelled code
+    reads of it: whether it is empty and, of the latest record, its type and
+    whether its text ends with a decimal digit (punctuator.cc: is_after_number).
+    [None] = empty. *)
+Definition hrec := (bytes * bool)%type.
+Definition hist := option hrec.
 
 Record context := mkCtx {
   cx_input : bytes;
   cx_caret : nat;
   cx_comp : segmentation;
   cx_opts : list (bytes * bool);   (* map<string,bool>; absent = false *)
-  cx_err : option err
+  cx_err : option err;
+  cx_hist : hist                   (* commit_history_ (abstracted) *)
 }.
 
 Definition ctx_with_input (c : context) (i : bytes) (k : nat) : context :=
-  mkCtx i k (cx_comp c) (cx_opts c) (cx_err c).
+  mkCtx i k (cx_comp c) (cx_opts c) (cx_err c) (cx_hist c).
 Definition ctx_with_comp (c : context) (sg : segmentation) : context :=
-  mkCtx (cx_input c) (cx_caret c) sg (cx_opts c) (cx_err c).
+  mkCtx (cx_input c) (cx_caret c) sg (cx_opts c) (cx_err c) (cx_hist c).
 Definition ctx_with_opts (c : context) (o : list (bytes * bool)) : context :=
-  mkCtx (cx_input c) (cx_caret c) (cx_comp c) o (cx_err c).
+  mkCtx (cx_input c) (cx_caret c) (cx_comp c) o (cx_err c) (cx_hist c).
+Definition ctx_with_hist (c : context) (h : hist) : context :=
+  mkCtx (cx_input c) (cx_caret c) (cx_comp c) (cx_opts c) (cx_err c) h.
 Definition ctx_fail (c : context) (e : err) : context :=
   mkCtx (cx_input c) (cx_caret c) (cx_comp c) (cx_opts c)
-        (match cx_err c with Some x => Some x | None => Some e end).
+        (match cx_err c with Some x => Some x | None => Some e end) (cx_hist c).
 Definition ctx_check (c : context) (ok : bool) (e : err) : context := if ok then c else ctx_fail c e.
 
 (** option names *)
@@ -272,3 +284,66 @@ Fixpoint drop_unselected (l : list segment) : list segment * bool :=
 Definition clear_non_confirmed (c : context) : context * bool :=
   let (l, reverted) := drop_unselected (sg_segs (cx_comp c)) in
   if reverted then (ctx_with_comp c (fst (forward (sg_with_segs (cx_comp c) l))), true) else (c, false).
+
+(** ---- CommitHistory (commit_history.cc) ---- *)
+Definition is_digit_byte (b : byte) : bool := let n := N_of_byte b in ((48 <=? n) && (n <=? 57))%N.
+(** [ends_with_digit] of punctuator.cc ([isdigit] of a byte >= 0x80 is false) *)
+Definition ends_with_digit (t : bytes) : bool :=
+  match t with [] => false | _ => is_digit_byte (last t x00) end.
+
+(** [CommitHistory::Push(const KeyEvent&)] *)
+Definition hist_push_key (h : hist) (k : key) : hist :=
+  if (k_mod k =? 0)%Z then
+    if ((k_code k =? XK_BackSpace) || (k_code k =? XK_Return))%Z then None
+    else if ((32 <=? k_code k) && (k_code k <=? 126))%Z
+         then Some (ty_thru, is_digit_byte (byte_of_N (Z.to_N (k_code k))))
+         else h
+  else h.
+
+(** loop state of [CommitHistory::Push(const Composition&, const string&)]:
+    the latest record, the pointer [last] as (type of the record it points to,
+    number of records pushed after it – 0 = it is [back()]), [end], and two
+    flags: no substr out of range, [last] never dereferenced after its record
+    was popped (kMaxRecords = 20: a record with 20 younger ones is gone) *)
+Record hacc := mkHacc {
+  ha_back : hist; ha_last : option (bytes * nat); ha_end : nat; ha_ok : bool; ha_live : bool }.
+
+Definition kMaxRecords : nat := 20.
+
+Definition hacc_push (a : hacc) (ty txt : bytes) : hacc :=
+  mkHacc (Some (ty, ends_with_digit txt))
+         (match ha_last a with Some (t, age) => Some (t, S age) | None => None end)
+         (ha_end a) (ha_ok a) (ha_live a).
+
+(** [guard]: the shape of the source in which the raw branch also resets [last]
+    (Gen/EngFacts.v: commit_history_guard); [false] = the code as it stands *)
+Definition hist_step (guard : bool) (input : bytes) (a : hacc) (g : segment) : hacc :=
+  match selected_cand g with
+  | Some cd =>
+    let live := match ha_last a with Some (_, age) => age <? kMaxRecords | None => true end in
+    let same := match ha_last a with Some (t, _) => bytes_eqb t (c_type cd) | None => false end in
+    let a1 :=
+      if same then
+        (* last->text += cand->text() *)
+        let back := match ha_last a, ha_back a with
+                    | Some (_, 0), Some (t, d) =>
+                      Some (t, match c_text cd with [] => d | _ => ends_with_digit (c_text cd) end)
+                    | _, b => b
+                    end in
+        mkHacc back (ha_last a) (ha_end a) (ha_ok a) (ha_live a && live)
+      else
+        let a' := hacc_push a (c_type cd) (c_text cd) in
+        mkHacc (ha_back a') (Some (c_type cd, 0)) (ha_end a') (ha_ok a') (ha_live a && live) in
+    let lst := if status_geb (s_status g) SConfirmed then None else ha_last a1 in
+    mkHacc (ha_back a1) lst (c_end cd) (ha_ok a1) (ha_live a1)
+  | None =>
+    let (t, ok) := substr_se input (s_start g) (s_end g) in
+    let a' := hacc_push a ty_raw t in
+    mkHacc (ha_back a') (if guard then None else ha_last a') (s_end g) (ha_ok a && ok) (ha_live a')
+  end.
+
+(** result: the new abstract history, "no substr out of range", "no dangling [last]" *)
+Definition hist_push_comp (guard : bool) (h : hist) (sg : segmentation) (input : bytes) : hist * bool * bool :=
+  let a := fold_left (hist_step guard input) (segs_fwd sg) (mkHacc h None 0 true true) in
+  let a := if ha_end a <? length input then hacc_push a ty_raw (skipn (ha_end a) input) else a in
+  (ha_back a, ha_ok a, ha_live a).
